@@ -669,7 +669,8 @@ class Ctx(object):
         self.max_decisions = max_decisions
         self.max_alternatives = max_alternatives
         self.deadline = None
-        self.margins = []         # z3 terms (lhs - rhs) of strict decisions, for interior models
+        self.decided = {}
+        self._keep = []           # keeps decided terms alive so that AST ids are not reused
 
     # ---------------------------------------------------------------- solver plumbing
     def check(self, *assumptions):
@@ -723,6 +724,22 @@ class Ctx(object):
             return True
         if z3.is_false(cond):
             return False
+        # a condition already decided on this path (structurally identical term) is not asked again
+        key = cond.get_id()
+        if key in self.decided:
+            return self.decided[key]
+        d = self._decide(cond)
+        self.decided[key] = d
+        try:
+            neg = z3.simplify(z3.Not(cond))
+            self.decided[neg.get_id()] = not d
+            self._keep.append(neg)
+        except z3.Z3Exception:
+            pass
+        self._keep.append(cond)
+        return d
+
+    def _decide(self, cond):
         if len(self.decisions) >= self.max_decisions:
             raise PathAbort("decision bound exceeded", kind='bound')
         if self.pos < len(self.prefix):
